@@ -10,7 +10,7 @@ SCHED_CLAUSE = {
     "finalized": "C03", "adapters-finalized-once": "C03", "terminates": "C03",
     "false-cycle": "C04", "false-cycle-zone": "C04", "cycle-in-connect": "C04",
     "other-error": None,   # C04 for cyclic configurations, C03 otherwise (see below)
-    "canon": "C05", "order-dependent": "C05",
+    "canon": "C05", "canon-buffered": "C05", "order-dependent": "C05",
     "init-times": "C06", "init-publications": "C06", "connect-error": "C06",
     "delay-shift": "C13", "delay-shift-notify": "C13",
     "provider-time": "C20", "weighted-sum": "C20", "static-input": "C20", "merger-raised": "C20",
